@@ -48,9 +48,6 @@ MUTANTS = [
      "        losses = loss_cost * species_lca.distance(left_species, left_child)", "        losses = loss_cost * (species_lca.distance(left_species, left_child) + 1)"),
     ("thl-transfer-to-ancestor-allowed", ["C01", "C04"], "src/superrec2/compute/reconciliation.py",
      "        elif not species_lca.is_ancestor_of(other_species, root_species):", "        elif other_species != root_species:"),
-    ("exh-transfer-skip-one-direction", ["C01", "C05"], "src/superrec2/compute/exhaustive.py",
-     "            if species_lca.is_ancestor_of(other_target, transfer_target):\n                continue",
-     "            if species_lca.is_comparable(other_target, transfer_target):\n                continue"),
     ("exh-stop-below-root", ["C01"], "src/superrec2/compute/exhaustive.py",
      "        while parent_species is not None:", "        while parent_species is not None and (parent_species.up is not None or parent_species is lca):"),
     ("lca-uses-first-child-only-when-equal-depth", ["C07"], "src/superrec2/compute/reconciliation.py",
@@ -63,13 +60,6 @@ MUTANTS = [
                         rec[right_node],
                     )""",
      """                    and rec[left_node] != rec[right_node]"""),
-    ("eval-transfer-loss-on-wrong-child", ["C06"], "src/superrec2/model/reconciliation.py",
-     """            left_dist
-            if species_lca.is_ancestor_of(rec[node], rec[left_node])
-            else right_dist""",
-     """            left_dist
-            if species_lca.is_comparable(rec[node], rec[left_node])
-            else right_dist""".replace("is_comparable(rec[node], rec[left_node])", "is_ancestor_of(rec[node], rec[right_node]) is False")),
     ("eval-unordered-dup-max", ["C06"], "src/superrec2/model/reconciliation.py",
      "                    total_cost += min(left_cost, right_cost)", "                    total_cost += max(left_cost, right_cost) if left_cost != right_cost and len(node_set) > 2 else min(left_cost, right_cost)"),
     ("eval-ordered-dup-edges-swapped", ["C06"], "src/superrec2/model/reconciliation.py",
@@ -99,9 +89,7 @@ MUTANTS = [
     # ---- policies
     ("entry-any-keeps-two", ["C16", "C05"], "src/superrec2/utils/dynamic_programming.py",
      "                if info and (is_all or (is_any and not self._infos)):", "                if info and (is_all or (is_any and len(self._infos) < 2)):"),
-    ("entry-max-strict-flip", ["C16"], "src/superrec2/utils/dynamic_programming.py",
-     "(is_max and self._value < value)", "(is_max and self._value <= value and self._value != value)".replace("<= value and self._value != value", "< value - 0)").replace("- 0)", "- 0)")),
-    ("entry-combine-drops-ties", ["C16", "C05"], "src/superrec2/utils/dynamic_programming.py",
+    ("entry-combine-drops-ties", ["C16"], "src/superrec2/utils/dynamic_programming.py",
      "        for ours, theirs in product(self._infos, other.infos()):", "        for ours, theirs in product(sorted(self._infos, key=repr)[:3], other.infos()):"),
     # ---- binarize
     ("binarize-feature-copy-skips-color", ["C08"], "src/superrec2/utils/trees.py",
@@ -109,28 +97,32 @@ MUTANTS = [
     ("binarize-arrange-skips-last-graft", ["C08"], "src/superrec2/utils/trees.py",
      "    if not tree.is_leaf() and (ignore is None or tree.get_topology_id() not in ignore):", "    if not tree.is_leaf() and len(tree) < 4 and (ignore is None or tree.get_topology_id() not in ignore):"),
     # ---- utils
-    ("lca-rmq-end-exclusive", ["C17"], "src/superrec2/utils/trees.py",
-     "        result = self.range_min_query(start, end + 1)", "        result = self.range_min_query(start, end + 1) if end - start != 5 else self.range_min_query(start, end)"),
     ("rmq-depth-off", ["C17"], "src/superrec2/utils/range_min_query.py",
      "            self.sparse_table[depth][stop - 2**depth],", "            self.sparse_table[depth][max(start, stop - 2**depth - (1 if stop - start == 6 else 0))],"),
     ("segdist-edges-final-run", ["C18", "C02"], "src/superrec2/utils/subsequences.py",
      "    if in_segm and not edges:\n        dist -= 1", "    if in_segm and not edges and dist > 1:\n        dist -= 1"),
     ("mask-from-subseq-stops-early", ["C18"], "src/superrec2/utils/subsequences.py",
      "        if child_i == len(child):\n            break", "        if child_i == len(child) or parent_i > 6:\n            break"),
-    ("toposort-all-no-restore", ["C19", "C02"], "src/superrec2/utils/toposort.py",
+    ("toposort-all-no-restore", ["C19"], "src/superrec2/utils/toposort.py",
      "        for node_to in graph[node_from]:\n            indeg[node_to] += 1\n\n    return results", "        for node_to in list(graph[node_from])[:2]:\n            indeg[node_to] += 1\n\n    return results"),
     ("toposort-deque-order", ["C19"], "src/superrec2/utils/toposort.py",
      "            if indeg[succ] == 0:\n                starts.remove(succ)", "            if indeg[succ] == 0 and succ in starts and len(starts) != 4:\n                starts.remove(succ)"),
-    ("dsu-binary-misses-split", ["C20"], "src/superrec2/utils/disjoint_set.py",
-     "            elif second is None or groups[0] < second:", "            elif second is None or groups[0] <= second - 1 or len(groups) == 1:".replace(" or len(groups) == 1", "")),
-    ("triples-lexicographic-slip", ["C20"], "src/superrec2/utils/trees.py",
-     "        leaf = other.get_sisters()[0].get_leaves()[0].name", "        leaf = other.get_sisters()[0].get_leaves()[-1].name if len(leaves) > 4 and len(other.get_sisters()[0]) > 2 else other.get_sisters()[0].get_leaves()[0].name"),
+    ("dsu-binary-returns-one-block", ["C20"], "src/superrec2/utils/disjoint_set.py",
+     "                if first is None or second is None:\n                    return []", "                if first is None and second is None:\n                    return []"),
+    ("eval-transfer-conserved-args-swapped", ["C06"], "src/superrec2/model/reconciliation.py",
+     "            if species_lca.is_ancestor_of(rec[node], rec[left_node])\n            else right_dist", "            if species_lca.is_ancestor_of(rec[left_node], rec[node])\n            else right_dist"),
+    ("entry-max-never-ties", ["C16"], "src/superrec2/utils/dynamic_programming.py",
+     "            if self._value == value:\n                if info and", "            if self._value == value and (is_min or not self._infos or len(candidates) == 1):\n                if info and"),
+    ("triples-all-trees-skip-consistency", ["C20"], "src/superrec2/utils/trees.py",
+     "    if tree_from_triples(leaves, triples) is None:\n        return []", "    if len(leaves) < 5 and tree_from_triples(leaves, triples) is None:\n        return []"),
+    ("layout-speciation-swap-test", ["C13", "C14"], "src/superrec2/render/layout.py",
+     "                    if species_lca.is_ancestor_of(left_species, mapping[right_gene]):", "                    if species_lca.is_strict_ancestor_of(left_species, mapping[right_gene]):"),
     # ---- serialisation / CLI
     ("ser-ordered-default", ["C11"], "src/superrec2/model/reconciliation.py",
      '            "ordered": self.ordered,\n', '            **({"ordered": self.ordered} if self.ordered else {}),\n'),
     ("ser-costs-lost-for-inf", ["C11"], "src/superrec2/model/reconciliation.py",
      '            "costs": dict(((event.name, value) for event, value in self.costs.items())),', '            "costs": dict(((event.name, value) for event, value in self.costs.items() if value == value and value != float("inf"))),'),
-    ("cli-min-cost-of-last", ["C06", "C12"], "src/superrec2/cli/reconcile.py",
+    ("cli-min-cost-of-last", ["C12"], "src/superrec2/cli/reconcile.py",
      '    print("Minimum cost:", results[0].cost(), file=sys.stderr)', '    print("Minimum cost:", results[0].reconciliation_cost() if hasattr(results[0], "reconciliation_cost") and len(results) > 1 else results[0].cost(), file=sys.stderr)'),
     ("label-internal-counter-shared", ["C12"], "src/superrec2/model/reconciliation.py",
      '                while f"S{next_species}" in self.species_lca.tree:', '                while f"S{next_species}" in self.object_tree or f"S{next_species}" in self.species_lca.tree:'),
@@ -138,25 +130,6 @@ MUTANTS = [
     ("layout-loss-wrong-side", ["C13"], "src/superrec2/render/layout.py",
      "        is_left = prev_species == start_species.children[0]\n        is_right = prev_species == start_species.children[1]",
      "        is_left = prev_species == start_species.children[0] or (color is not None and prev_gene is not gene)\n        is_right = not is_left"),
-    ("layout-dup-loss-stops-early", ["C13"], "src/superrec2/render/layout.py",
-     """                    right_gene = _add_losses(
-                        layout_state,
-                        right_gene,
-                        mapping[right_gene],
-                        root_species.up,
-                    )
-
-                    state["anchor_nodes"].add(root_gene)
-                    state["anchor_nodes"].remove(left_gene)""",
-     """                    right_gene = _add_losses(
-                        layout_state,
-                        right_gene,
-                        mapping[right_gene],
-                        root_species.up if mapping[right_gene].up is not root_species or True else root_species,
-                    )
-
-                    state["anchor_nodes"].add(root_gene)
-                    state["anchor_nodes"].remove(left_gene)"""),
     ("tikz-transfer-arrow-to-conserved", ["C13"], "src/superrec2/render/tikz.py",
      "            foreign_pos = foreign_layout.anchors[right_gene]", "            foreign_pos = foreign_layout.anchors[right_gene] if len(all_layouts) != 5 else layout.branches[left_gene].anchor_parent"),
     ("layout-horizontal-spacing-uses-width", ["C14"], "src/superrec2/render/layout.py",
